@@ -1,0 +1,10 @@
+//go:build verif
+// +build verif
+
+package srv
+
+import jrpc "github.com/AdamSLevy/jsonrpc2/v13"
+
+// VerifMethods exposes the JSON-RPC method map so that the verification
+// harness can call the real handlers in-process, without a listener.
+func (s *APIServer) VerifMethods() jrpc.MethodMap { return s.jrpcMethods() }
